@@ -107,3 +107,17 @@ func (s *sched) lastSeq() int {
 	defer s.mu.Unlock()
 	return s.seq
 }
+
+// rename re-attributes the timers of an owner (a connection's id is known only after NewClient returned).
+func (s *sched) rename(from, to string) {
+	s.mu.Lock()
+	for _, t := range s.timers {
+		if t.owner == from {
+			t.owner = to
+		}
+	}
+	if s.owner == from {
+		s.owner = to
+	}
+	s.mu.Unlock()
+}
